@@ -120,6 +120,21 @@ def r1(R1, cfg, F):
     if not fs or not fv or not ds:
         R1.missing(cfg, 'SharedBytes::from_slice / from_vec / drop_slow')
         return
+    # the header of a buffer taken from a Vec is allocated with Layout::new::<Inner>() and, when the Vec had no capacity,
+    # freed with get_inner_layout(0): the two agree only while the inline bytes have alignment 1 (no padding, same alignment)
+    gl = F.body(B + '::get_inner_layout')
+    if not gl:
+        R1.missing(cfg, 'SharedBytes::get_inner_layout')
+    else:
+        ly = [c for c in gl.calls() if c.callee and re.search(r'Layout::(from_size_align|from_size_align_unchecked|array)', c.callee.best)]
+        ex = [c for c in gl.calls() if c.callee and c.callee.best == 'std::alloc::Layout::extend']
+        okl = len(ly) == 1 and len(ex) == 1 and (('array' in ly[0].callee.best and ly[0].callee.args[:1] == ['u8']) or
+                                                  (len(ly[0].args) == 2 and re.match(r'^1(_usize)?$', ly[0].args[1].get('text', '')) is not None and gl.origins(ly[0].args[0]) == {('arg', 1)}))
+        if okl:
+            hdr = gl.call_roots(ex[0].args[0])
+            okl = len(hdr) == 1 and hdr[0].callee.best == 'std::alloc::Layout::new' and hdr[0].callee.args == ['utils::bytes::Inner'] \
+                and common.strip_refs(common.deep_path(gl, ex[0].args[1], at=ex[0].bb)) == ['call@bb%d' % ly[0].bb]
+        R1.check(okl, cfg, gl.path, 'inline-layout=Inner+len-bytes-of-alignment-1', 'get_inner_layout(len) must be Layout::new::<Inner>() extended by `len` bytes of alignment 1: with any other alignment get_inner_layout(0) differs from the layout the header of a capacity-0 Vec was allocated with', gl.loc())
     allocs = F.calls_to(r'^std::alloc::(alloc|alloc_zeroed|realloc)$')
     where = sorted({c.body.path for c in allocs})
     R1.check(where == [fs.path, fv.path] and len(allocs) == 2, cfg, 'std::alloc::alloc', 'allocated-only-in-from_slice-and-from_vec', 'raw allocations in %s' % where)
